@@ -100,52 +100,59 @@ func checkC19(c *ProgCase) *Outcome {
 	if p := run.Guard(func() { report = rcd.Render(r.Src) }); p != nil {
 		return bad("rendering the report failed: %s\n src: %s", p.Text, r.Src)
 	}
-	lines := strings.Split(report, "\n")
-	if lines[0] != r.Src {
-		return bad("first line of the report is %q, the source is %q", lines[0], r.Src)
-	}
 	competing := false
-	for _, e := range entries {
-		text := e.V.String()
-		if strings.ContainsAny(text, "\n\r") {
-			// a value whose text has line breaks is shown on consecutive lines of its own, every
-			// piece starting at the value's column
-			pieces := multiLineSplit.Split(text, -1)
-			shown := false
-			for li := 1; li+len(pieces) <= len(lines) && !shown; li++ {
-				all := true
-				for k, pc := range pieces {
-					lr, pr := []rune(lines[li+k]), []rune(pc)
-					if len(pr) == 0 {
-						continue
+	// shows: the report keeps the source as first line and shows every recorded value at its column
+	shows := func(report, which string) *Outcome {
+		lines := strings.Split(report, "\n")
+		if lines[0] != r.Src {
+			return bad("first line of %s is %q, the source is %q", which, lines[0], r.Src)
+		}
+		for _, e := range entries {
+			text := e.V.String()
+			if strings.ContainsAny(text, "\n\r") {
+				// a value whose text has line breaks is shown on consecutive lines of its own, every
+				// piece starting at the value's column
+				pieces := multiLineSplit.Split(text, -1)
+				shown := false
+				for li := 1; li+len(pieces) <= len(lines) && !shown; li++ {
+					all := true
+					for k, pc := range pieces {
+						lr, pr := []rune(lines[li+k]), []rune(pc)
+						if len(pr) == 0 {
+							continue
+						}
+						if e.Col-1+len(pr) > len(lr) || string(lr[e.Col-1:e.Col-1+len(pr)]) != pc {
+							all = false
+							break
+						}
 					}
-					if e.Col-1+len(pr) > len(lr) || string(lr[e.Col-1:e.Col-1+len(pr)]) != pc {
-						all = false
-						break
+					shown = all
+				}
+				if !shown {
+					return bad("%s does not show the multi-line value %q at column %d\n report:\n%s", which, text, e.Col, report)
+				}
+				continue
+			}
+			tr := []rune(text)
+			found := false
+			for li, ln := range lines[1:] {
+				lr := []rune(ln)
+				if e.Col-1+len(tr) <= len(lr) && string(lr[e.Col-1:e.Col-1+len(tr)]) == text {
+					found = true
+					if li > 1 {
+						competing = true
 					}
+					break
 				}
-				shown = all
 			}
-			if !shown {
-				return bad("the report does not show the multi-line value %q at column %d\n report:\n%s", text, e.Col, report)
-			}
-			continue
-		}
-		tr := []rune(text)
-		found := false
-		for li, ln := range lines[1:] {
-			lr := []rune(ln)
-			if e.Col-1+len(tr) <= len(lr) && string(lr[e.Col-1:e.Col-1+len(tr)]) == text {
-				found = true
-				if li > 1 {
-					competing = true
-				}
-				break
+			if !found {
+				return bad("%s does not show value %s at column %d\n report:\n%s", which, text, e.Col, report)
 			}
 		}
-		if !found {
-			return bad("the report does not show value %s at column %d\n report:\n%s", text, e.Col, report)
-		}
+		return nil
+	}
+	if o := shows(report, "the report"); o != nil {
+		return o
 	}
 	// ---- (d) every evaluation, not only the first: the same compiled closure with
 	// the same record (cleared by DebugCompile when an evaluation starts) gives
@@ -210,8 +217,12 @@ func checkC19(c *ProgCase) *Outcome {
 				if dl[0] != r.Src {
 					return bad("first line of the report returned by Debug is %q, the source is %q (%s; Debug %s)\n env: %s", dl[0], r.Src, what, outcomeText(dv, derr, dp), envSummary(c))
 				}
-				if sameRendering && dreport != report {
-					return bad("the report returned by Debug differs from the rendering of the record of the same evaluation (%s; Debug %s)\n Debug:\n%s\n record:\n%s", what, outcomeText(dv, derr, dp), dreport, report)
+				if sameRendering {
+					// the same values at the same columns as the record of route (b) (the environment
+					// holds the very values; as a map the field orders of objects may be other ones)
+					if o := shows(dreport, "the report returned by Debug ("+what+")"); o != nil {
+						return o
+					}
 				}
 				if len(entries) > 0 && len(dl) < 2 {
 					return bad("the report returned by Debug shows none of the %d recorded values (%s; Debug %s)\n report:\n%s", len(entries), what, outcomeText(dv, derr, dp), dreport)
@@ -372,7 +383,7 @@ var c19apiOpt = gen.ProgOpt{Fuel: 4, Partial: true, Sugar: true, Maybe: true, Ti
 var c19api = Register(&Prop[ProgCase]{ID: "C19", Name: "debug-api", Gen: withBlanks(genProgCase(c19apiOpt, nil)), Check: checkC19})
 
 func TestC19(t *testing.T) {
-	R.Rule = "accepted single-line programs (ASCII and non-ASCII identifiers and strings, a user-registered postfix operator whose token follows its operand, blanks / tabs / carriage returns between tokens and before the first / after the last token, sugar, unevaluated lazy branches, failing operands) over conforming environments; oracle: (a) yae.Debug returns the same value / failure as Eval and the reference, and its report - after a value and after a failure alike - has the source as first line, shows recorded values and equals the rendering of the record of route (b), with the environment as a Go struct and again as map[string]interface{} after a call with the same source over a differently typed map of the same Go type; (b) closure.DebugCompile with a debug.Record read through the hook records exactly the reference evaluator's evaluated variable / call / member / subscript terms, in completion order, each with its value and the column of its own token + 1 (identifier start, operator token, '(' of a call, '.', '['); (c) Render does not fail, its first line is the source and every recorded value appears at its column on a later line (a value whose text has line breaks on consecutive lines, every piece at that column); (d) a second and third evaluation of the same compiled expression with the same record give the same entries and report; non-trivial = >= 3 recorded terms and an unevaluated branch, a non-ASCII rune before a recorded term, or two values competing for a line"
+	R.Rule = "accepted single-line programs (ASCII and non-ASCII identifiers and strings, a user-registered postfix operator whose token follows its operand, blanks / tabs / carriage returns between tokens and before the first / after the last token, sugar, unevaluated lazy branches, failing operands) over conforming environments; oracle: (a) yae.Debug returns the same value / failure as Eval and the reference, and its report - after a value and after a failure alike - has the source as first line and shows every value recorded on route (b) at its column, with the environment as a Go struct and again as map[string]interface{} after a call with the same source over a differently typed map of the same Go type; (b) closure.DebugCompile with a debug.Record read through the hook records exactly the reference evaluator's evaluated variable / call / member / subscript terms, in completion order, each with its value and the column of its own token + 1 (identifier start, operator token, '(' of a call, '.', '['); (c) Render does not fail, its first line is the source and every recorded value appears at its column on a later line (a value whose text has line breaks on consecutive lines, every piece at that column); (d) a second and third evaluation of the same compiled expression with the same record give the same entries and report; non-trivial = >= 3 recorded terms and an unevaluated branch, a non-ASCII rune before a recorded term, or two values competing for a line"
 	R.Assume = []string{"ref.Eval's completion order; model.Print's token positions; lazy functions that force a thunk twice (lz_pick) are outside the domain (one term, two evaluations)"}
 	reportKnown(t, "C19")
 	runRegress(t, "C19")
